@@ -1661,9 +1661,14 @@ func propC19(c *Ctx) {
 	oldProcs := runtime.GOMAXPROCS(0)
 	defer runtime.GOMAXPROCS(oldProcs)
 
-	// ---- correspondence lines, with the draw-to-ID mapping checked on each
+	// ---- correspondence lines, with the draw-to-ID mapping checked on each (needs the `verif` hook: in the build of
+	// the library as it ships — no tag — this part and the seeded/counting generators below are skipped, and only the
+	// shipped generator is judged; bin/check runs both builds for C19)
 	var orHi, orLo, andHi, andLo uint64 = 0, 0, ^uint64(0), ^uint64(0)
 	draw := func(a, b uint64) (uint64, uint64) {
+		if !hookBuild {
+			return 0, 0
+		}
 		line := fmt.Sprintf("uu.random %d %d", a, b)
 		out := c.Op(line)
 		var hi, lo uint64
@@ -1684,53 +1689,55 @@ func propC19(c *Ctx) {
 		return hi, lo
 	}
 	const all63 = uint64(1)<<63 - 1
-	zhi, zlo := draw(0, 0)
-	fhi, flo := draw(all63, all63)
-	draw(0, all63)
-	draw(all63, 0)
-	// every single draw bit moves at most one ID bit; together they reach exactly the 122 free bits
-	var reachHi, reachLo, reachHi1, reachLo1 uint64
-	for i := 0; i < 63; i++ {
-		h1, l1 := draw(1<<uint(i), 0)
-		h2, l2 := draw(0, 1<<uint(i))
-		h3, l3 := draw(all63^1<<uint(i), all63)
-		h4, l4 := draw(all63, all63^1<<uint(i))
-		draw(1<<uint(i), 1<<uint(i))
-		draw(all63^1<<uint(i), all63^1<<uint(i))
-		c.Check("")
-		if bits.OnesCount64(h1^zhi)+bits.OnesCount64(l1^zlo) > 1 || bits.OnesCount64(h2^zhi)+bits.OnesCount64(l2^zlo) > 1 ||
-			bits.OnesCount64(h3^fhi)+bits.OnesCount64(l3^flo) > 1 || bits.OnesCount64(h4^fhi)+bits.OnesCount64(l4^flo) > 1 || l1 != zlo || h2 != zhi || l3 != flo || h4 != fhi {
-			c.Fail("C19.bitmove", fmt.Sprintf("uu.random %d 0", uint64(1)<<uint(i)), "draw bit %d moves more than one ID bit", i)
+	if hookBuild {
+		zhi, zlo := draw(0, 0)
+		fhi, flo := draw(all63, all63)
+		draw(0, all63)
+		draw(all63, 0)
+		// every single draw bit moves at most one ID bit; together they reach exactly the 122 free bits
+		var reachHi, reachLo, reachHi1, reachLo1 uint64
+		for i := 0; i < 63; i++ {
+			h1, l1 := draw(1<<uint(i), 0)
+			h2, l2 := draw(0, 1<<uint(i))
+			h3, l3 := draw(all63^1<<uint(i), all63)
+			h4, l4 := draw(all63, all63^1<<uint(i))
+			draw(1<<uint(i), 1<<uint(i))
+			draw(all63^1<<uint(i), all63^1<<uint(i))
+			c.Check("")
+			if bits.OnesCount64(h1^zhi)+bits.OnesCount64(l1^zlo) > 1 || bits.OnesCount64(h2^zhi)+bits.OnesCount64(l2^zlo) > 1 ||
+				bits.OnesCount64(h3^fhi)+bits.OnesCount64(l3^flo) > 1 || bits.OnesCount64(h4^fhi)+bits.OnesCount64(l4^flo) > 1 || l1 != zlo || h2 != zhi || l3 != flo || h4 != fhi {
+				c.Fail("C19.bitmove", fmt.Sprintf("uu.random %d 0", uint64(1)<<uint(i)), "draw bit %d moves more than one ID bit", i)
+			}
+			reachHi |= h1 ^ zhi
+			reachLo |= l2 ^ zlo
+			reachHi1 |= h3 ^ fhi
+			reachLo1 |= l4 ^ flo
 		}
-		reachHi |= h1 ^ zhi
-		reachLo |= l2 ^ zlo
-		reachHi1 |= h3 ^ fhi
-		reachLo1 |= l4 ^ flo
-	}
-	c.Check("free-bits-reachable")
-	if reachHi != c19FreeHi || reachLo != c19FreeLo || reachHi1 != c19FreeHi || reachLo1 != c19FreeLo {
-		c.Fail("C19.reach", "", "bits reached from single draw bits: %016x %016x / %016x %016x", reachHi, reachLo, reachHi1, reachLo1)
-	}
-	nRandOps := 20000
-	if c.Thorough {
-		nRandOps = 300000
-	}
-	for i := 0; i < nRandOps; i++ {
-		a, b := c.R.Next()>>1, c.R.Next()>>1
-		switch i % 8 {
-		case 1:
-			a &= c.R.Next()
-			b &= c.R.Next()
-		case 2:
-			a |= c.R.Next() >> 1
-			b |= c.R.Next() >> 1
+		c.Check("free-bits-reachable")
+		if reachHi != c19FreeHi || reachLo != c19FreeLo || reachHi1 != c19FreeHi || reachLo1 != c19FreeLo {
+			c.Fail("C19.reach", "", "bits reached from single draw bits: %016x %016x / %016x %016x", reachHi, reachLo, reachHi1, reachLo1)
 		}
-		draw(a, b)
-	}
-	c.Check("op-bits")
-	if orHi != ^uint64(0xb000) || andHi != 0x4000 || orLo != ^uint64(1<<62) || andLo != 1<<63 {
-		c.Fail("C19.opbits", "", "or %016x %016x and %016x %016x", orHi, orLo, andHi, andLo)
-	}
+		nRandOps := 20000
+		if c.Thorough {
+			nRandOps = 300000
+		}
+		for i := 0; i < nRandOps; i++ {
+			a, b := c.R.Next()>>1, c.R.Next()>>1
+			switch i % 8 {
+			case 1:
+				a &= c.R.Next()
+				b &= c.R.Next()
+			case 2:
+				a |= c.R.Next() >> 1
+				b |= c.R.Next() >> 1
+			}
+			draw(a, b)
+		}
+		c.Check("op-bits")
+		if orHi != ^uint64(0xb000) || andHi != 0x4000 || orLo != ^uint64(1<<62) || andLo != 1<<63 {
+			c.Fail("C19.opbits", "", "or %016x %016x and %016x %016x", orHi, orLo, andHi, andLo)
+		}
+	} // hookBuild
 
 	// ---- concurrent generation
 	perRun, perCount := 10000, 4000
@@ -1790,10 +1797,13 @@ func propC19(c *Ctx) {
 			examine(key, ids)
 			totalIDs += int64(len(ids))
 
+			if !hookBuild {
+				continue
+			}
 			// a seeded generator behind the same lock
 			key = fmt.Sprintf("seeded p=%d g=%d", p, g)
 			c.Check(key)
-			restore := uu.VerifSetRandomSource(rand.NewSource(int64(c.R.Next() >> 1)))
+			restore := setRandomSource(rand.NewSource(int64(c.R.Next() >> 1)))
 			ids = c19Run(g, perRun)
 			restore()
 			examine(key, ids)
@@ -1808,7 +1818,7 @@ func propC19(c *Ctx) {
 				key = fmt.Sprintf("counting p=%d g=%d yield=%v", p, g, yield)
 				c.Check(key)
 				src := &c19Counting{seed: c.R.Next(), yield: yield}
-				restore := uu.VerifSetRandomSource(src)
+				restore := setRandomSource(src)
 				ids = c19Run(g, n)
 				restore()
 				totalIDs += int64(len(ids))
@@ -1823,7 +1833,7 @@ func propC19(c *Ctx) {
 				// the same pairs drawn by a single caller, which cannot interleave with anybody
 				if g == 1 || g == 64 {
 					serial := &c19Counting{seed: src.seed}
-					restore := uu.VerifSetRandomSource(serial)
+					restore := setRandomSource(serial)
 					for k := range want {
 						if id := uu.RandomID(); id != want[k] {
 							c.Fail("C19.map", fmt.Sprintf("uu.random %d %d", c19Draw(src.seed, uint64(2*k)), c19Draw(src.seed, uint64(2*k+1))), "%v, want %v", id, want[k])
